@@ -213,6 +213,49 @@ DELIVERABLES - create the directory {wt}/seed_out and put there, for X in (A, B,
   {wt}/seed_out/demo_X.py       run as: cd {wt} && PYTHONPATH={wt}/src:{wt} /venv/bin/python seed_out/demo_X.py
   {wt}/seed_out/notes_X.md      3-8 lines: what the refactoring is, which single detail is not equivalent, why that breaks the property, what it needs to manifest, what you ran (suite before/after, demo exit codes)
 Leave the worktree with NO change applied at the end (git checkout -- src), keep seed_out/. Finish with a short report. If you cannot find three good changes deliver as many as you can.""")
+elif mode == 'hard8':
+    print(f"""You are helping to evaluate a verification tool by writing realistic, hard-to-notice defects ("seeded changes").
+
+{common}
+YOUR TASK: produce FOUR different, independent changes to the library source under {wt}/src/emsarray (call them A, B, C and D), each of which
+  1. BREAKS the property above (for some input / configuration / history the statement becomes false),
+  2. still imports/compiles and keeps every currently passing test of the existing suite passing (unchanged test files),
+  3. needs something SPECIFIC to manifest; ordinary use of the sample datasets must not expose it.
+This round is about SMALL commits (1 to 12 changed lines each, one purpose each) in the places reviewers look at least. Each change should read like a real one-line-summary commit ("handle X", "fix Y for Z", "use W instead of V", "default to ...", "simplify ...") and be the kind of mistake found in real bug histories of numpy / xarray / shapely code. Spread A-D over DIFFERENT ones of these places:
+  * options and non-default arguments: the branch taken only for a non-default keyword (`buffer`, `missing_points`, `drop_geometry`, `non_spatial_variables`, `point_dimension`, `index_dimension`, `fill_value`, formats and flags of the command line, plot keyword arguments ...), a default value changed, a keyword forwarded under the wrong name or not forwarded, an option validated against the wrong set;
+  * the less used variants: the grid kinds other than the default one (edge / node / back / left grids), the conventions other than the one the tests mostly use (SHOC simple, SHOC standard, Arakawa C, CF 2D grids with bounds, UGRID with optional tables, one-based or transposed storage), subclasses overriding a class attribute or a hook of the base class, deprecated aliases that forward to the new name;
+  * arguments to library calls: a keyword of a numpy / xarray / shapely / pyproj / netCDF4 call dropped, added or changed (`axis`, `keepdims`, `drop`, `strict`, `predicate`, `sorted`, `return_index`, `kind='stable'`, `always_xy`, `ccw`, `decimals`, `missing_dims`, `compat`, `combine_attrs`, `copy`, `dtype`, `casting`, `fill_value`, `mode`), or a call replaced by a near-synonym with a different corner (`numpy.nonzero` / `flatnonzero` / `argwhere`, `any` / `all`, `min` / `nanmin`, `isel` / `sel`, `stack` / `concatenate`, `intersects` / `contains` / `covers`, `ravel` / `flatten` order, `astype` / `view`);
+  * boundaries and special values: first / last element, empty / single-element input, zero, negative values, NaN / masked / fill values, duplicated coordinates, a comparison `<` / `<=`, a slice end, an off-by-one in a shape, `start_index`, `int` / `float` / `bool` dtypes;
+  * error handling and validation: a check that is weakened, moved after the action it guards, or applied to the wrong variable; an exception type or a caught exception widened; a warning instead of an error; a partial result returned or written before the failure is noticed.
+Do not hide the change in a large refactoring; do not add unrelated code. They must be made in different functions, and at least TWO must be made outside the functions the property names as its anchors (in a helper, property, base class, sibling convention, utility or the command line wiring that the anchored code relies on).
+For each change write a demonstration: a standalone Python program that exits with status 0 when the property holds and 1 (printing what went wrong) when violated; it must exit 0 on the UNMODIFIED tree and 1 with the change applied. Locate any data files relative to the current working directory (the worktree root), never via __file__. Do not compare against text that contains the name of your script (argparse error messages do).
+
+DELIVERABLES - create the directory {wt}/seed_out and put there, for X in (A, B, C, D):
+  {wt}/seed_out/patch_X.diff   output of `git diff -- src` with ONLY change X applied (each patch applies alone to the unmodified tree with `git apply`)
+  {wt}/seed_out/demo_X.py       run as: cd {wt} && PYTHONPATH={wt}/src:{wt} /venv/bin/python seed_out/demo_X.py
+  {wt}/seed_out/notes_X.md      3-8 lines: what the change is (as a commit summary), why it breaks the property, what it needs to manifest, what you ran (suite before/after, demo exit codes)
+Leave the worktree with NO change applied at the end (git checkout -- src), keep seed_out/. Finish with a short report. If you cannot find four good changes deliver as many as you can. If, while reading the code, you notice that the UNMODIFIED tree already violates the property for some input, say so in the report with the input.""")
+elif mode == 'benign8':
+    print(f"""You are helping to evaluate a verification tool by writing BEHAVIOUR-PRESERVING commits: edits a maintainer might make that change how the code is written but not what it does. The tool under evaluation must stay silent on them.
+
+{common}
+YOUR TASK: produce THREE different, independent, behaviour-preserving commits (call them A, B and C) to the code this property depends on (the functions it is anchored in, the helpers, properties and base-class methods they rely on) under {wt}/src/emsarray. Each must
+  1. leave the behaviour exactly the same for every input (the property above, and every other behaviour, still holds; same results, same dtypes and orders, same exceptions and messages, same warnings),
+  2. compile and keep every currently passing test passing,
+  3. read like a REAL upstream maintenance commit. This round is about the day-to-day commits that are NOT refactorings for their own sake; use a different kind for each of A-C, out of:
+     * dependency adaptation with identical results: a numpy / xarray / shapely / pyproj call replaced by its documented equivalent (`numpy.product` -> `numpy.prod`, `shapely.geometry.Polygon` <-> `shapely.Polygon`, `dataset.dims` -> `dataset.sizes` where only sizes are read, `numpy.in1d` -> `numpy.isin`, `DataArray.values` <-> `DataArray.to_numpy()`, `numpy.row_stack` -> `numpy.vstack`, `cast(...)` added, keyword spelled out where it was positional or given its default value explicitly);
+     * micro-optimisation with identical results: an attribute or a lookup read once into a local before a loop, a repeated sub-expression computed once, a list built by comprehension instead of repeated `append`, `tuple` instead of `list` for something only iterated, preallocation with `numpy.empty` + full assignment instead of `numpy.full`/`zeros` ONLY where every entry is then written, `in` on a set built once, early exit when the answer is already known, `functools.lru_cache` / `cached_property` ONLY on pure functions of immutable arguments;
+     * robustness that can never change a result: an `assert` or an explicit check that cannot fail for any input the function accepts today (state why), an `else: raise AssertionError('unreachable')`, `dict[...]` -> `.get(...)` followed by the same KeyError being raised by hand with the same message, context managers for resources already closed correctly, `logger.debug` / `logger.info` calls, `warnings` left exactly as they are;
+     * documentation and typing commits that also touch code lightly: docstrings and comments rewritten, annotations added (`-> numpy.ndarray`, `Optional[...]`, `Final`, `Literal`), `typing.overload` stubs, `__all__` lists, `__slots__` ONLY on classes never given other attributes, dead code and unused variables / imports removed, unreachable branches removed (state why they are unreachable), duplicated code folded into one private helper;
+     * consistency commits: the same idiom applied across sibling classes or sibling functions (all conventions spell the same step the same way), keyword arguments in call sites ordered as in the signature, long functions reordered so that independent preparatory statements sit next to their use, magic numbers / strings given a name.
+  10-60 changed lines each; at least ONE of the three must touch two or more functions or two or more modules. Keep public names (functions, methods, classes, properties without a leading underscore) where they are; do NOT change semantics, defaults, error types or messages, and do not touch the tests.
+For each commit write an equivalence demonstration: a standalone Python program that exercises the changed functions on several inputs (including awkward ones: one-based and transposed storage, masked entries, 1xN shapes, several grid kinds, empty selections, non-default options, whatever this property is about) and compares results with expected values computed independently or recorded from the unmodified tree (embed the expected values in the script); it must exit 0 both on the unmodified tree and with the commit applied. Locate any data files relative to the current working directory (the worktree root), never via __file__. Do not compare against text that contains the name of your script (argparse error messages do) or memory addresses.
+
+DELIVERABLES - create the directory {wt}/seed_out and put there, for X in (A, B, C):
+  {wt}/seed_out/patch_X.diff   output of `git diff -- src` with ONLY commit X applied (each patch applies alone to the unmodified tree with `git apply`)
+  {wt}/seed_out/demo_X.py       run as: cd {wt} && PYTHONPATH={wt}/src:{wt} /venv/bin/python seed_out/demo_X.py    (exit 0 before and after)
+  {wt}/seed_out/notes_X.md      3-8 lines: which kind of commit, which functions, why behaviour is identical, what you ran (suite before/after, demo exit codes)
+Leave the worktree with NO change applied at the end (git checkout -- src), keep seed_out/. Finish with a short report. If you cannot find three good commits deliver as many as you can.""")
 elif mode == 'benign7':
     print(f"""You are helping to evaluate a verification tool by writing BEHAVIOUR-PRESERVING refactorings: edits a maintainer might make that change how the code is written but not what it does. The tool under evaluation must stay silent on them.
 
